@@ -352,13 +352,14 @@ class TableSchema:
     autoinc: bool = False
     unique: list = field(default_factory=list)
     notnull: set = field(default_factory=set)
+    types: dict = field(default_factory=dict)
 
 
 def parse_create_tables(text: str) -> dict[str, TableSchema]:
     out = {}
     for m in re.finditer(r"CREATE TABLE(?: IF NOT EXISTS)?\s+([A-Za-z_{}]+)\s*\((.*?)\)\s*(?:;|$|\"\"\")", text, re.S | re.I):
         name, body = m.group(1), m.group(2)
-        cols, pk, autoinc, unique, notnull = [], [], False, [], set()
+        cols, pk, autoinc, unique, notnull, types = [], [], False, [], set(), {}
         depth, cur, parts = 0, "", []
         for ch in body:
             if ch == "(":
@@ -383,6 +384,7 @@ def parse_create_tables(text: str) -> dict[str, TableSchema]:
                 continue
             cname = part.split()[0]
             cols.append(cname)
+            types[cname] = (part.split()[1].upper() if len(part.split()) > 1 else "TEXT")
             if "PRIMARY KEY" in up:
                 pk = [cname]
                 if "AUTOINCREMENT" in up:
@@ -393,7 +395,7 @@ def parse_create_tables(text: str) -> dict[str, TableSchema]:
                 notnull.add(cname)  # (DEFAULT columns: assumed never written NULL explicitly -- listed assumption)
         for c in pk:
             notnull.add(c)
-        out[name] = TableSchema(name, cols, pk, autoinc, unique, notnull)
+        out[name] = TableSchema(name, cols, pk, autoinc, unique, notnull, types)
     return out
 
 
@@ -408,7 +410,7 @@ def load_schemas(index) -> dict[str, TableSchema]:
     for name in list(out):
         if "{table_name}" in name:
             out[name.replace("{table_name}", "queue_messages")] = TableSchema(name.replace("{table_name}", "queue_messages"), out[name].cols,
-                                                                               out[name].pk, out[name].autoinc, out[name].unique, out[name].notnull)
+                                                                               out[name].pk, out[name].autoinc, out[name].unique, out[name].notnull, out[name].types)
     return out
 
 
@@ -543,6 +545,8 @@ class SqlEval:
         if k == "col":
             if tab is None or e[1] not in tab.cols:
                 raise Unsupported(f"SQL: unknown column {e[1]}")
+            if e[1] in getattr(tab, "schema", None).notnull if hasattr(tab, "schema") else False:
+                return z3.Select(tab.cols[e[1]], key), FALSE  # NOT NULL / PRIMARY KEY / DEFAULT column (listed assumption)
             return z3.Select(tab.cols[e[1]], key), z3.Select(tab.nulls[e[1]], key)
         if k == "bin":
             a, an = self.expr(e[2], tab, key)
@@ -700,15 +704,16 @@ def row_get(I, row: SObj, col, stmt_cols=None):
             n = FALSE  # NOT NULL / PRIMARY KEY column (schema constraint, assumed enforced by SQLite)
         if tab.schema.pk == [col]:
             t = key
-    return SqlValue.wrap(I, t, n)
+    return SqlValue.wrap(I, t, n, tab.schema.types.get(col, "") if isinstance(col, str) else "")
 
 
 class SqlValue:
     @staticmethod
-    def wrap(I, t, n):
+    def wrap(I, t, n, coltype=""):
         """A column value read back: an integer-coded value that may be NULL.  Typed lazily by use: SStr and SInt share
         the integer representation, so we hand out an SVal-free union object: SOpt(SInt) that also compares as a string."""
         v = SSqlCell(t)
+        v.coltype = coltype
         ns = z3.simplify(n)
         if z3.is_false(ns):
             return v
@@ -716,7 +721,9 @@ class SqlValue:
 
 
 class SSqlCell(SInt):
-    """Column value: integer code usable as int or as str (same representation)."""
+    """Column value: integer code usable as int or as str (same representation); `coltype` is the declared SQL type."""
+
+    coltype = ""
 
     def __repr__(self):
         return f"SSqlCell({self.t})"
